@@ -183,7 +183,8 @@ Definition resource_object (v : jv) : option labels :=
   end.
 
 (* the points array: timestamp and value are variables of the enclosing function, so a point object without one of them
-   repeats what the point before it had (value 0 / the clock for the first point: None = not modelled) *)
+   repeats what the point before it had; before the first timestamp of the array tsNs is the clock reading taken when the array
+   began: such leading points are the stamped ones (their values in order) *)
 Fixpoint point_members (ms : list (string * jv)) (st : option Z * N) : option (option Z * N) :=
   match ms with
   | [] => Some st
@@ -197,38 +198,45 @@ Fixpoint point_members (ms : list (string * jv)) (st : option Z * N) : option (o
 Inductive walked (A : Type) := WErr | WUnmodelled | WOk (x : A).
 Arguments WErr {A}. Arguments WUnmodelled {A}. Arguments WOk {A} x.
 
-Fixpoint points_array (els : list jv) (st : option Z * N) (acc : list (Z * N)) : walked (list (Z * N) * (option Z * N)) :=
+Fixpoint points_array (els : list jv) (st : option Z * N) (acc : list (Z * N)) (stamped : list N)
+  : walked (list (Z * N) * list N * (option Z * N)) :=
   match els with
-  | [] => WOk (acc, st)
+  | [] => WOk (acc, stamped, st)
   | JObj ms :: r =>
     match point_members ms st with
     | None => WErr
-    | Some (Some z, b) => points_array r (Some z, b) (acc ++ [(z, b)])
-    | Some (None, _) => WUnmodelled                        (* time.Now() *)
+    | Some (Some z, b) => points_array r (Some z, b) (acc ++ [(z, b)]) stamped
+    | Some (None, b) => points_array r (None, b) acc (stamped ++ [b])      (* time.Now() of the array *)
     end
   | _ :: _ => WErr
   end.
 
 (* what the members of one series object add up to: the metric names, the resource arrays, the points *)
-Record sacc := SA { sa_names : list string; sa_resources : list (list labels); sa_points : list (Z * N) }.
+Record sacc := SA { sa_names : list string; sa_resources : list (list labels); sa_points : list (Z * N); sa_stamped : list N }.
 Fixpoint series_members (ms : list (string * jv)) (a : sacc) : walked sacc :=
   match ms with
   | [] => WOk a
   | (k, v) :: r =>
     if String.eqb k "metric" then
-      match v with JStr s => series_members r (SA (sa_names a ++ [s]) (sa_resources a) (sa_points a)) | _ => WErr end
+      match v with JStr s => series_members r (SA (sa_names a ++ [s]) (sa_resources a) (sa_points a) (sa_stamped a)) | _ => WErr end
     else if String.eqb k "resources" then
       match v with
       | JArr els => match all_some resource_object els with
-                    | Some rs => series_members r (SA (sa_names a) (sa_resources a ++ [rs]) (sa_points a))
+                    | Some rs => series_members r (SA (sa_names a) (sa_resources a ++ [rs]) (sa_points a) (sa_stamped a))
                     | None => WErr
                     end
       | _ => WErr
       end
     else if String.eqb k "points" then
       match v with
-      | JArr els => match points_array els (None, 0%N) [] with    (* the two variables start afresh for every points member *)
-                    | WOk (ps, _) => series_members r (SA (sa_names a) (sa_resources a) (sa_points a ++ ps))
+      | JArr els => match points_array els (None, 0%N) [] [] with    (* the two variables start afresh for every points member *)
+                    | WOk (ps, [], _) => series_members r (SA (sa_names a) (sa_resources a) (sa_points a ++ ps) (sa_stamped a))
+                    | WOk (ps, st, _) =>
+                      (* stamped points behind earlier points of the same series (a second points member): its own clock reading, not modelled *)
+                      match sa_points a, sa_stamped a with
+                      | [], [] => series_members r (SA (sa_names a) (sa_resources a) ps st)
+                      | _, _ => WUnmodelled
+                      end
                     | WErr => WErr
                     | WUnmodelled => WUnmodelled
                     end
@@ -241,15 +249,15 @@ Fixpoint series_members (ms : list (string * jv)) (a : sacc) : walked sacc :=
    the tie: label lists are looked up as multisets); a series object with several of either is not modelled *)
 Definition series_of_acc (a : sacc) : walked ddseries :=
   match sa_names a, sa_resources a with
-  | [], [] => WOk (DS None [] (sa_points a))
-  | [n], [] => WOk (DS (Some n) [] (sa_points a))
-  | [], [rs] => WOk (DS None rs (sa_points a))
-  | [n], [rs] => WOk (DS (Some n) rs (sa_points a))
+  | [], [] => WOk (DS None [] (sa_points a) (sa_stamped a))
+  | [n], [] => WOk (DS (Some n) [] (sa_points a) (sa_stamped a))
+  | [], [rs] => WOk (DS None rs (sa_points a) (sa_stamped a))
+  | [n], [rs] => WOk (DS (Some n) rs (sa_points a) (sa_stamped a))
   | _, _ => WUnmodelled
   end.
 Definition series_object (v : jv) : walked ddseries :=
   match v with
-  | JObj ms => match series_members ms (SA [] [] []) with WOk a => series_of_acc a | WErr => WErr | WUnmodelled => WUnmodelled end
+  | JObj ms => match series_members ms (SA [] [] [] []) with WOk a => series_of_acc a | WErr => WErr | WUnmodelled => WUnmodelled end
   | _ => WErr
   end.
 (* an error in series k comes after the series before it were handed on; for the request as a whole: an error wins over
@@ -283,12 +291,12 @@ Definition ddmet_document (doc : jv) : walked (list ddseries) := match doc with 
 
 Record mcase := MCase { mc_case : case; mc_doc : jv; mc_written : bool }.
 Definition with_mbody (c : case) (l : list ddseries) : case :=
-  Case (c_id c) (BDDMet l) (c_ctx_ttl c) (c_cache c) (c_tab c) (c_obs c) (c_err c).
+  Case (c_id c) (BDDMet (case_clock c) l) (c_ctx_ttl c) (c_cache c) (c_tab c) (c_obs c) (c_err c).
 Definition ostr_eqb_strict (a b : option string) : bool :=
   match a, b with Some x, Some y => String.eqb x y | None, None => true | _, _ => false end.
 Definition ddseries_eqb (a b : ddseries) : bool :=
   ostr_eqb_strict (dm_metric a) (dm_metric b) && list_eqb labels_eqb (dm_resources a) (dm_resources b) &&
-  list_eqb (fun p q => (fst p =? fst q) && (snd p =? snd q)%N) (dm_points a) (dm_points b).
+  list_eqb (fun p q => (fst p =? fst q) && (snd p =? snd q)%N) (dm_points a) (dm_points b) && list_eqb N.eqb (dm_stamped a) (dm_stamped b).
 
 (* an absent "resources" member and an empty array give the same labels *)
 Definition mc_mismatch (c : mcase) : bool :=
@@ -296,7 +304,7 @@ Definition mc_mismatch (c : mcase) : bool :=
   | WErr => negb (is_error (c_err (mc_case c)))
   | WUnmodelled => false
   | WOk l =>
-    (mc_written c && negb (match c_body (mc_case c) with BDDMet l0 => list_eqb ddseries_eqb l l0 | _ => false end))
+    (mc_written c && negb (match c_body (mc_case c) with BDDMet _ l0 => list_eqb ddseries_eqb l l0 | _ => false end))
     || model_mismatch (with_mbody (mc_case c) l)
   end.
 Definition mc_spec_violation (c : mcase) : bool :=
